@@ -23,8 +23,14 @@ def c01(res, tier, a):
     with Scratch(slot()) as sc:
         ws.inject(sc)
         drv = ws.Driver(ws.build_driver(sc))
-        cov = et.run_pipeline(res, tier, sc, drv)
-        cov.update(et.run_enum_layout(res, tier, sc, drv))
+        comps = _components(a, ["pipeline", "layout", "laws"])
+        cov = {}
+        if "pipeline" in comps:
+            cov.update(et.run_pipeline(res, tier, sc, drv))
+        if "layout" in comps:
+            cov.update(et.run_enum_layout(res, tier, sc, drv))
+        if "laws" in comps:
+            cov.update(et.run_laws(res, tier, sc, drv))
         res.coverage.update(cov)
 
 
@@ -81,12 +87,13 @@ def c04(res, tier, a):
             cov.update(m.run_ops(res, tier, drv, k.constructed_operators()))
         if "runtime" in comps:
             cov.update(m.run_runtime(res, tier, sc, drv))
+            cov.update(m.run_vec_runtime(res, tier, sc, drv))
         if "lirwat" in comps:
             from checks import et
             cov.update(et.run_lirwat(res, tier, sc, drv))
         res.coverage.update(cov)
-        res.coverage["states"] = max(1, cov.get("operator_obligations", 0) + cov.get("runtime_obligations", 0))
-        res.coverage["transitions"] = max(1, cov.get("operator_obligations", 0) + cov.get("runtime_obligations", 0))
+        res.coverage["states"] = max(1, cov.get("operator_obligations", 0) + cov.get("runtime_obligations", 0) + cov.get("vec_runtime", {}).get("obligations", 0))
+        res.coverage["transitions"] = max(1, cov.get("operator_obligations", 0) + cov.get("runtime_obligations", 0) + cov.get("vec_runtime", {}).get("obligations", 0))
         res.coverage["traces_validated_against_impl"] = 0
         res.coverage["explanation"] = "one obligation per operator over all pairs of i32 operands"
 
